@@ -412,6 +412,15 @@ theorem run_fst_ne (op : Op) (net : Request → Resp) (t : Token) (h : (run op n
     obtain ⟨h1, r, j, h2, h3, h4⟩ := finish_fst_ne op t (net q) h
     exact ⟨h1, q, r, j, by simp [requestOf, hp], h2, h3, h4⟩
 
+/-- `validate`, `invalidate`, `join` never change the token. -/
+theorem run_fst_of_not_store (op : Op) (net : Request → Resp) (t : Token)
+    (h : ∀ f u p i, op ≠ .authenticate f u p i) (h' : op ≠ .refresh) : (run op net t).1 = t := by
+  by_cases hne : (run op net t).1 = t
+  · exact hne
+  · obtain ⟨h1 | h1, _⟩ := run_fst_ne op net t hne
+    · obtain ⟨f, u, p, i, h1⟩ := h1; exact absurd h1 (h f u p i)
+    · exact absurd h1 h'
+
 /-- Whole call: after a refusal the token is as before. -/
 theorem run_refusal (op : Op) (net : Request → Resp) (t : Token)
     (h : (run op net t).2.1.isRefusal = true) : (run op net t).1 = t := by
@@ -828,5 +837,51 @@ theorem runSvc_eq_runSeq {σ : Type} (svc : Service σ) (s : σ) (w : World) (ca
     refine ⟨rsp :: resps, by simp [hl], ?_⟩
     simp only [runSvc, List.zip_cons_cons, runSeq, ← hc]
     rw [hr]
+
+/-! ## programs -/
+
+/-- Tokens made by the real constructor: no shared profile objects, and each shows its constructor
+arguments and an empty profile. -/
+theorem build_newToken_spec (inits : List (JVal × JVal × JVal)) :
+    NoAlias (build World.newToken inits) ∧
+    (build World.newToken inits).tokens.length = inits.length ∧
+    ∀ j x, inits[j]? = some x →
+      (build World.newToken inits).view j = some ⟨x.1, x.2.1, x.2.2, ⟨.null, .null⟩⟩ := by
+  have gen : ∀ (inits : List (JVal × JVal × JVal)) (w : World), NoAlias w →
+      let w' := inits.foldl (fun w x => World.newToken w x.1 x.2.1 x.2.2) w
+      NoAlias w' ∧ w'.tokens.length = w.tokens.length + inits.length ∧
+      (∀ j, j < w.tokens.length → w'.view j = w.view j) ∧
+      ∀ j x, inits[j]? = some x →
+        w'.view (w.tokens.length + j) = some ⟨x.1, x.2.1, x.2.2, ⟨.null, .null⟩⟩ := by
+    intro inits
+    induction inits with
+    | nil => intro w hw; exact ⟨hw, rfl, fun _ _ => rfl, fun j x h => by simp at h⟩
+    | cons y inits ih =>
+      intro w hw
+      have hw' := noAlias_newToken w y.1 y.2.1 y.2.2 hw
+      have hlen : (w.newToken y.1 y.2.1 y.2.2).tokens.length = w.tokens.length + 1 := by
+        simp [World.newToken]
+      obtain ⟨h1, h2, h3, h4⟩ := ih _ hw'
+      refine ⟨h1, by rw [List.foldl_cons, h2, hlen]; simp; omega, ?_, ?_⟩
+      · intro j hj
+        rw [List.foldl_cons, h3 j (by omega)]
+        exact view_newToken_old w _ _ _ hw j hj
+      · intro j x hx
+        cases j with
+        | zero =>
+          simp only [List.getElem?_cons_zero, Option.some.injEq] at hx
+          subst hx
+          rw [List.foldl_cons, Nat.add_zero, h3 _ (by omega)]
+          exact view_newToken_new w _ _ _
+        | succ j =>
+          simp only [List.getElem?_cons_succ] at hx
+          have := h4 j x hx
+          rw [hlen] at this
+          rw [List.foldl_cons, ← this]
+          congr 1; omega
+  obtain ⟨h1, h2, _, h4⟩ := gen inits World.empty noAlias_empty
+  refine ⟨h1, by simpa [World.empty, build] using h2, fun j x hx => ?_⟩
+  have := h4 j x hx
+  simpa [World.empty, build] using this
 
 end PyCraft.AuthSeq
